@@ -145,8 +145,11 @@ pub fn run(ctx: &Ctx) -> Result<()> {
 				let rt = tokio::runtime::Builder::new_current_thread().build().unwrap();
 				let mut rng = Rng::new(seed);
 				for _ in 0..rounds {
-					let len = *rng.pick(&[1u64 << 20, (1 << 20) + 13, 3 << 20, 2_500_000]);
-					let off = rng.below(size_big - len);
+					// half of the reads start at one of a few shared offsets: several callers then read the same start with other
+					// lengths at the same time (a stream's chunk and a lookup of the chunk's first tile do that)
+					let shared = rng.chance(1, 2);
+					let len = if shared { *rng.pick(&[4096u64, 70_000, 1 << 20, 3 << 20]) } else { *rng.pick(&[1u64 << 20, (1 << 20) + 13, 3 << 20, 2_500_000]) };
+					let off = if shared { *rng.pick(&[0u64, 4096, 1 << 20, 5_000_000]) } else { rng.below(size_big - len) };
 					let ok = match rt.block_on(reader.read_range(&ByteRange::new(off, len))) {
 						Ok(b) => b.len() == len && { let s = b.as_slice(); let e0 = expected(off, 64); let tail = expected(off + len - 64, 64); let mid = len / 2; let em = expected(off + mid, 64);
 							s[..64] == e0[..] && s[(len - 64) as usize..] == tail[..] && s[mid as usize..(mid + 64) as usize] == em[..] },
